@@ -333,8 +333,54 @@ func c03SetAlphabets() []setAlpha {
 		{"strings", []cty.Value{
 			cty.StringVal("a"), cty.StringVal("e\u0301"), cty.StringVal("\u00e9"), cty.StringVal(""), cty.NullVal(cty.String), cty.StringVal("b"),
 		}},
+		// capsule values of a type without a HashKey all share one hash
+		// bucket (documented), so bucket-internal positions are exercised
+		{"capsules-one-bucket", []cty.Value{
+			cty.CapsuleVal(capsTypes[0], capsPtrs[0]), cty.CapsuleVal(capsTypes[0], capsPtrs[1]), cty.CapsuleVal(capsTypes[0], capsPtrs[2]),
+			cty.CapsuleVal(capsTypes[0], capsPtrs[3]), cty.CapsuleVal(capsTypes[0], capsPtrs[4]), cty.CapsuleVal(capsTypes[0], capsPtrs[0]),
+		}},
+		{"numbers-hash-colliding", hashCollidingInts()},
 	}
 }
+
+var capsPtrs = []*capsNative{{10}, {11}, {12}, {13}, {14}}
+
+// hashCollidingInts searches the whole numbers 0,1,2,... for members whose
+// real Value.Hash() coincide (found at run time through the public API, so
+// it follows whatever hashing scheme the tree under test uses) and returns
+// two colliding pairs (or a triple and a pair) plus fillers.
+var hashCollidingCache []cty.Value
+
+func hashCollidingInts() []cty.Value {
+	if hashCollidingCache == nil {
+		hashCollidingCache = hashCollidingInts1()
+	}
+	return hashCollidingCache
+}
+
+func hashCollidingInts1() []cty.Value {
+	byHash := map[int][]int64{}
+	var groups [][]int64
+	for i := int64(0); i < 2_000_000 && len(groups) < 2; i++ {
+		h := cty.NumberIntVal(i).Hash()
+		byHash[h] = append(byHash[h], i)
+		if len(byHash[h]) == 2 {
+			groups = append(groups, byHash[h])
+		}
+	}
+	var out []cty.Value
+	for _, g := range groups {
+		for _, i := range byHash[int64Hash(g[0])] {
+			out = append(out, cty.NumberIntVal(i))
+		}
+	}
+	for i := int64(0); len(out) < 6; i++ {
+		out = append(out, cty.NumberIntVal(i))
+	}
+	return out[:6]
+}
+
+func int64Hash(i int64) int { return cty.NumberIntVal(i).Hash() }
 
 type setSys struct {
 	name  string
@@ -551,6 +597,11 @@ func c03Permutations(c *Ctx) {
 	for _, alpha := range c03SetAlphabets() {
 		alpha := alpha
 		n := len(alpha.elems)
+		if tsOf(alpha.elems[0].Type()).HasCaps() {
+			// the statement promises a member-determined iteration order only
+			// for capsule-free members (and set RawEquals follows that order)
+			continue
+		}
 		// every subset of size 2..4, every permutation
 		for mask := 1; mask < 1<<n; mask++ {
 			var sub []cty.Value
